@@ -85,7 +85,7 @@ Definition calc_offset_w (amount : N) (assetBlinder valueBlinder : option sbuf) 
         let '(ok, result, w) := sinplace (fun k => ec_tweak_mul k val) result w in
         if negb ok then (SErr, w) else
         match vb with
-        | None => (SErr, w)                                   (* ErrInvalidValueBlinder *)
+        | None => (SOk result, w)                             (* an absent value blinder adds nothing *)
         | Some _ =>
             let vn := scopy valueBlinder in
             let '(ok, vn, w) := sinplace ec_negate vn w in
@@ -104,6 +104,9 @@ Definition sub_scalars_w (a b : option sbuf) (w : swlog) : sres * swlog :=
   match bb with
   | None => (SOk aa, w)
   | Some _ =>
+      (* a - a: `aa != nil && bytes.Equal(aa, bb)` returns make([]byte, 32) *)
+      if (match aa with Some _ => true | None => false end) && sbuf_eqb aa bb
+      then (SOk (Some (mk_sbuf SLocal zero32)), w) else
       let '(ok, bb, w) := sinplace ec_negate bb w in
       if negb ok then (SErr, w) else
       match aa with
@@ -127,6 +130,9 @@ Definition add_offset_w (scalar : option sbuf) (value : N) (assetBlinder valueBl
       match r with
       | SErr => (SErr, w)
       | SOk scalarOffset =>
+          match scalarOffset with
+          | None => (SOk s, w)          (* a zero amount without value blinder contributes nothing *)
+          | Some _ =>
           match s with
           | None => (SOk scalarOffset, w)
           | Some _ =>
@@ -136,6 +142,7 @@ Definition add_offset_w (scalar : option sbuf) (value : N) (assetBlinder valueBl
               if sbuf_eqb s nv then (SOk (Some szero_buf), w) else
               let '(ok, s, w) := sinplace (fun k => ec_tweak_add k (sdat scalarOffset)) s w in
               if negb ok then (SErr, w) else (SOk s, w)
+          end
           end
       end
   end.
